@@ -133,6 +133,8 @@ type Typestate struct {
 	// state immediately before each instruction of interest
 	before map[ssa.Instruction]*tsState
 	linkOK map[*ssa.BasicBlock]map[ssa.Value]bool
+	// IgnoreStores: field stores do not change the abstract value ("status as loaded", refined by guards only)
+	IgnoreStores bool
 }
 
 func isFieldAddrOf(addr ssa.Value, structT *types.Named, field string) *ssa.Alloc {
@@ -190,7 +192,16 @@ func (ts *Typestate) constSet(v ssa.Value, st *tsState, seen map[ssa.Value]bool)
 // AnalyzeTypestate runs the dataflow for field `field` (of enum type) of local
 // variables of struct type structT in fn.
 func (p *Prog) AnalyzeTypestate(fn *ssa.Function, structT *types.Named, field string, enum *Enum) *Typestate {
-	ts := &Typestate{p: p, Fn: fn, Enum: enum, Struct: structT, Field: field,
+	return p.analyzeTypestate(fn, structT, field, enum, false)
+}
+
+// AnalyzeLoadedState: the value the field had when the record was loaded, refined by guards; field stores are ignored.
+func (p *Prog) AnalyzeLoadedState(fn *ssa.Function, structT *types.Named, field string, enum *Enum) *Typestate {
+	return p.analyzeTypestate(fn, structT, field, enum, true)
+}
+
+func (p *Prog) analyzeTypestate(fn *ssa.Function, structT *types.Named, field string, enum *Enum, ignoreStores bool) *Typestate {
+	ts := &Typestate{p: p, Fn: fn, Enum: enum, Struct: structT, Field: field, IgnoreStores: ignoreStores,
 		in: map[*ssa.BasicBlock]*tsState{}, before: map[ssa.Instruction]*tsState{}}
 	for _, b := range fn.Blocks {
 		for _, in := range b.Instrs {
@@ -268,6 +279,10 @@ func (ts *Typestate) transfer(in ssa.Instruction, st *tsState) {
 		}
 	case *ssa.Store:
 		if a := isFieldAddrOf(x.Addr, ts.Struct, ts.Field); a != nil {
+			if ts.IgnoreStores {
+				ts.unlink(st, a)
+				return
+			}
 			st.field[a] = ts.constSet(x.Val, st, map[ssa.Value]bool{})
 			ts.unlink(st, a)
 			return
@@ -416,7 +431,13 @@ func (ts *Typestate) Writes() []StatusWrite {
 				continue // unreachable
 			}
 			w := StatusWrite{Store: st, Alloc: a, From: bs.field[a], To: ts.constSet(st.Val, bs, map[ssa.Value]bool{})}
-			w.Fresh = a.Comment == "complit"
+			// fresh: a record built in this function, never (whole-)assigned from a loaded value
+			w.Fresh = true
+			for _, ref := range *a.Referrers() {
+				if ws, ok := ref.(*ssa.Store); ok && ws.Addr == ssa.Value(a) {
+					w.Fresh = false
+				}
+			}
 			out = append(out, w)
 		}
 	}
